@@ -7,6 +7,7 @@ import Driver.EvmStorage
 import Driver.MinerControl
 import Driver.Vesting
 import Driver.Init
+import Driver.MinerPenalty
 
 /-- generic stdin/stdout loop over a pure handler -/
 partial def loop {σ : Type} (h : IO.FS.Stream) (out : IO.FS.Stream) (step : σ → String → σ × String)
@@ -32,4 +33,5 @@ def main (args : List String) : IO UInt32 := do
     loop stdin stdout Driver.MinerControl.handle (BA.MinerControl.init 0 0 []); return 0
   | ["vesting"] => loop stdin stdout Driver.Vesting.handle ({} : Driver.Vesting.St); return 0
   | ["init"] => loop stdin stdout Driver.Init.handle BA.Init.genesis; return 0
+  | ["minerpenalty"] => loop stdin stdout Driver.MinerPenalty.handle (); return 0
   | _ => IO.eprintln "usage: driver <model>"; return 2
